@@ -3569,7 +3569,7 @@ class State:
 
     def patch_indirect_dependencies(self, module_refs: set[str], types: set[Type]) -> None:
         assert self.ancestors is not None
-        existing_deps = set(self.dependencies + self.suppressed + self.ancestors)
+        existing_deps = set(self.dependencies + self.suppressed)
         existing_deps.add(self.id)
 
         encountered = self.manager.indirection_detector.find_modules(types) | module_refs
